@@ -549,7 +549,14 @@ fn compile_to_ir_using_alpha(
 		{
 			let outputpath = {
 				let mut path = out_dir.to_path_buf();
-				path.push(filepath.clone());
+				// Pushing an absolute path would replace the output directory.
+				path.extend(filepath.components().filter(|x| {
+					!matches!(
+						x,
+						std::path::Component::Prefix(_)
+							| std::path::Component::RootDir
+					)
+				}));
 				path.set_extension("pn.ll");
 				path
 			};
